@@ -18,7 +18,7 @@ TECHNIQUE = 'exhaustive enumeration of a small name language through the real co
 RULE = ('(a) all names up to the bound; (b) all 7,225 pairs in one file; (c) random unicode names; non-trivial = name containing a quote or a '
         'slash or empty; distinct = the name pair')
 ASSUMPTIONS = ['names contain no lone surrogates (not encodable as UTF-8)']
-REQUIRED = ['concat_ambiguity_files', 'file_chunk_lookups', 'memmap_files', 'reused_writer_objects', 'implied_group_lookups', 'codec_roundtrips', 'injectivity_pairs', 'end_to_end_lookups', 'unicode_names', 'lazy_lookups']
+REQUIRED = ['absent_name_lookups', 'reordered_segment_files', 'concat_ambiguity_files', 'file_chunk_lookups', 'memmap_files', 'reused_writer_objects', 'implied_group_lookups', 'codec_roundtrips', 'injectivity_pairs', 'end_to_end_lookups', 'unicode_names', 'lazy_lookups']
 EXHAUSTIVE = {'quick': False, 'thorough': False}
 ALPHA = ["'", '/', ' ', 'a']
 
@@ -173,6 +173,36 @@ def check_identity(ctx, data, pairs, ids, label, group_props=True):
                 grp = tf[g]
                 if grp.name != g or grp.path != M.qpath(g) or (group_props and grp.properties.get('gname') != g):
                     ctx.violation('%s/group-identity' % label, {'mode': mode, 'group': g, 'name': grp.name, 'path': grp.path, 'prop': grp.properties.get('gname')})
+            # names that do not exist must not resolve to something else (e.g. 'g/c' is not a group although g and c exist)
+            gset = {g for g, _ in pairs}
+            for (g, c) in list(ids)[:400]:
+                for absent in (g + '/' + c, M.qpath(g, c), M.qpath(g), g + c + '\x01'):
+                    if absent in gset:
+                        continue
+                    ctx.count('absent_name_lookups')
+                    try:
+                        found = absent in tf
+                        if found:
+                            ctx.violation('%s/absent-group-name-reported-present' % label, {'mode': mode, 'name': absent})
+                        tf[absent]
+                        ctx.violation('%s/absent-group-name-resolves' % label, {'mode': mode, 'name': absent})
+                    except KeyError:
+                        pass
+                    except Exception as ex:
+                        ctx.violation('%s/absent-group-lookup-wrong-exception/%s' % (label, util.exc_key(ex)), {'mode': mode, 'name': absent})
+                cset = {c2 for g2, c2 in pairs if g2 == g}
+                for absent in (g + '/' + c, c + '/', M.qpath(g, c)):
+                    if absent in cset:
+                        continue
+                    try:
+                        if absent in tf[g]:
+                            ctx.violation('%s/absent-channel-name-reported-present' % label, {'mode': mode, 'group': g, 'name': absent})
+                        tf[g][absent]
+                        ctx.violation('%s/absent-channel-name-resolves' % label, {'mode': mode, 'group': g, 'name': absent})
+                    except KeyError:
+                        pass
+                    except Exception as ex:
+                        ctx.violation('%s/absent-channel-lookup-wrong-exception/%s' % (label, util.exc_key(ex)), {'mode': mode, 'name': absent})
             if mode == 'lazy' and len(pairs) <= 2000:
                 # the file-level chunk stream must hand every channel ITS data under ITS name
                 seen = {}
@@ -194,6 +224,52 @@ def check_identity(ctx, data, pairs, ids, label, group_props=True):
                 mm.__exit__()
 
 
+def reordered(ctx, pairs):
+    """The same channels listed in a different order in every segment: each channel keeps ITS values."""
+    from nptdms import TdmsFile, TdmsWriter, ChannelObject
+    rng = random.Random(repr(pairs[:3]))
+    ids = {pc: i for i, pc in enumerate(pairs)}
+    # built with the independent encoder: TdmsWriter sorts the objects of a segment, other producers do not
+    segs = []
+    for k in range(3):
+        order = list(pairs)
+        if k == 1:
+            order.reverse()
+        elif k == 2:
+            rng.shuffle(order)
+        sg = M.Seg()
+        sg.new_obj_list = True
+        # value counts and types differ from channel to channel, so that taking one channel for another shows
+        def nvals(pc):
+            return 1 + (ids[pc] + k) % 3
+
+        def typ(pc):
+            return ('i32', 'f64', 'i16')[ids[pc] % 3]
+        sg.listing = [(M.qpath(g, c), 'full', (typ((g, c)), nvals((g, c)), None)) for g, c in order]
+        sg.active = [(M.qpath(g, c), True, (typ((g, c)), nvals((g, c)), None)) for g, c in order]
+        sg.chunks = [{M.qpath(g, c): np.array([ids[(g, c)] + 1000 * k] * nvals((g, c))).astype(M.TYPES[typ((g, c))][1]) for g, c in order}]
+        segs.append(sg)
+    buf = io.BytesIO(M.encode_file(segs)[0])
+    ctx.count('reordered_segment_files')
+    for mode in ('lazy', 'eager'):
+        tf = (TdmsFile.open if mode == 'lazy' else TdmsFile.read)(io.BytesIO(buf.getvalue()))
+        try:
+            order = list(pairs)
+            rng.shuffle(order)
+            for (g, c) in order:
+                want = [ids[(g, c)] + 1000 * k for k in range(3) for _ in range(1 + (ids[(g, c)] + k) % 3)]
+                try:
+                    got = [int(v) for v in tf[g][c][:].tolist()]
+                    one = [int(tf[g][c][j]) for j in (len(want) - 1, 0, len(want) // 2)] if mode == 'lazy' else None
+                except Exception as ex:
+                    ctx.violation('reordered-segments/raises/%s/%s' % (mode, util.exc_key(ex)), {'pair': (g, c), 'exc': util.exc_detail(ex)})
+                    continue
+                if got != want or len(tf[g][c]) != len(want) or (one is not None and one != [want[-1], want[0], want[len(want) // 2]]):
+                    ctx.violation('reordered-segments/channel-gets-another-channels-values/%s' % mode, {'pair': (g, c), 'got': got, 'want': want})
+        finally:
+            tf.close()
+
+
 def e2e_all(case, ctx):
     pairs = [(g, c) for g in W3 for c in W3]
     ctx.evaluation(len(pairs))
@@ -208,6 +284,7 @@ def e2e_groups(case, ctx):
     write_read(ctx, pairs, 'group-block-file')
     write_read(ctx, [(g, c) for g in gs for c in W3[::7]], 'reused-object-file', reuse=True)
     implied(ctx, [(g, c) for g in gs for c in W3[::5]])
+    reordered(ctx, [(g, c) for g in gs[:3] for c in W3[::7]][:12])
     concat_ambiguity(ctx, [(gs[0], gs[1 % len(gs)], gs[2 % len(gs)]), ('p', 'q', 'r'), (gs[-1], 'a', gs[0])])
 
 
